@@ -3,6 +3,7 @@ module verif/harness
 go 1.26.8
 
 require (
+	github.com/hashicorp/go-hclog v1.6.3
 	github.com/hashicorp/raft v0.0.0
 	pgregory.net/rapid v1.3.0
 )
@@ -10,7 +11,6 @@ require (
 require (
 	github.com/armon/go-metrics v0.4.1 // indirect
 	github.com/fatih/color v1.13.0 // indirect
-	github.com/hashicorp/go-hclog v1.6.3 // indirect
 	github.com/hashicorp/go-immutable-radix v1.0.0 // indirect
 	github.com/hashicorp/go-metrics v0.5.4 // indirect
 	github.com/hashicorp/go-msgpack/v2 v2.1.5 // indirect
